@@ -22,6 +22,10 @@ PRELUDE = (
     'def list L = a b',
     'def path P = -rel-act p.txt',
     'def path PD = -rel-home home-dir',
+    # strings that refer - SLL at depth 2 - to symbols that are not strings: wrong type where only strings are allowed
+    'def string SL = @[L]@',
+    'def string SLL = x@[SL]@',
+    'def string SP = @[P]@',
     'def line-matcher LM = constant true',
     'def file-matcher FM = constant true',
     'def files-matcher FSM = constant true',
@@ -249,13 +253,20 @@ def needed_prelude(prelude, text: str):
     """the lines of the prelude that define something `text` mentions (a symbol name, f.txt, d1): parsing the full
     prelude in every run only costs time"""
     words = _words(text)
-    out = []
+    names = []
     for line in prelude:
         parts = line.split()
-        name = parts[2] if parts[0] == 'def' else parts[1]
-        if name in words:
-            out.append(line)
-    return out
+        names.append(parts[2] if parts[0] == 'def' else parts[1])
+    needed = set()
+    changed = True
+    while changed:  # a needed definition may itself mention others
+        changed = False
+        for name, line in zip(names, prelude):
+            if name not in needed and name in words:
+                needed.add(name)
+                words = words | _words(line.split('=', 1)[1] if '=' in line else '')
+                changed = True
+    return [line for name, line in zip(names, prelude) if name in needed]
 
 
 def use_of(tokens):
@@ -295,11 +306,17 @@ def case_text(phase: str, instruction: str, act=ACT, prelude=PRELUDE, use=None):
 ANY = 'any'  # validity of the mutant is not known: any documented outcome except INTERNAL_ERROR
 MISTAKE = 'mistake'  # certainly a mistake: exit 65 (SYNTAX_ERROR / VALIDATION_ERROR) or, at the latest, HARD_ERROR
 
-INVALID_INTS = ('notanint', '1+', '1.5', "'1 2'", '""', '1e3', '1:2:3', '@[LM]@', '@[UNDEFINED_SYMBOL]@')
+INVALID_INTS = ('notanint', '1+', '1.5', "'1 2'", '""', '1e3', '1:2:3', '@[LM]@', '@[UNDEFINED_SYMBOL]@',
+                # Python's message holds braces / percent signs (messages are formatted when the report is printed)
+                '1+{', '1}', '(1}', '"int(\'{x}\')"', '"int(\'%s %(y)d\')"',
+                # wrong type reached only indirectly
+                '@[SP]@', '@[SLL]@')
 # expressions on which Python's eval raises something else than SyntaxError / ValueError / TypeError / NameError
 EVAL_RAISING_INTS = ('1//0', '10.0**400', '[][0]', '{}[0]', '().x', '1%0', 'exit()')
 EXTREME_INTS = ('99999999999999999999999999', '-99999999999999999999', '-0', '0x1F', '1_0', '2**100', '(1)', 'True', '-1',
-                '00', '+1', "' 7 '", '1if(1)else(2)', '@[N5]@', '@[N5]@@[N5]@')
+                '00', '+1', "' 7 '", '1if(1)else(2)', '@[N5]@', '@[N5]@@[N5]@',
+                # more digits than Python converts to a string
+                '10**5000', '-10**5000')
 INVALID_REGEXES = ("'('", "'[a'", "'*a'", "'a{2,1}'", "'(?P<n>a)(?P<n>b)'", "'a\\'", "'(?z)'", '@[LM]@', '@[UNDEFINED_SYMBOL]@')
 WEIRD_REGEXES = ("''", "'(?i)a'", "'a|'", "'\\Z'", "'(?#c)'", "'a{,}'", "'[]]'", '"@[S]@"', '-ignore-case a', ':> a b', "'(?s).'")
 WEIRD_GLOBS = ("'['", "'[!'", "'**'", "''", "'.'", "'./'", "'[]'", "'a\\'", "'***/..'", "'[z-a]'", "'[a-]'", "'?'", '@[S]@', "'{a,b}'", "'/'")
@@ -321,9 +338,9 @@ USE_OF = {
 }
 WRONG_STRS = ('@[LM]@', '@[UNDEFINED_SYMBOL]@', '@[TT]@x')
 WEIRD_STRS = ("''", '""', "'a\nb'".replace('\n', ' '), '@[S]@@[S]@', "'@[S]@'", '@[', '@[]@', '@[S', ']@', '\\', '"\\""', '-', '--', '-x',
-              '<<', '<<EOF', ':>', '@', '@@', '$', '%', '`', '~')
+              '<<', '<<EOF', ':>', '@', '@@', '$', '%', '`', '~', '@[SLL]@', '@[SP]@')
 # absolute paths: only below /proc/<no such entry>, where nothing can be created (a mutant must not be able to touch the machine)
-WEIRD_PATHS = ('..', "''", '.', 'a/../b', '/proc/vsym-no-such-entry/x', '@[P]@/x', '@[S]@', '-rel-nosuch', '-rel-act', '-rel', '*')
+WEIRD_PATHS = ('..', "''", '.', 'a/../b', '/proc/vsym-no-such-entry/x', '@[P]@/x', '@[S]@', '-rel-nosuch', '-rel-act', '-rel', '*', '@[SLL]@/x')
 RESERVED = ('(', ')', '[', ']', '{', '}', '=', '|', ':', '!', '&&', '||')
 
 _MATCHER_LIKE = ('line-matcher', 'file-matcher', 'files-matcher', 'text-matcher', 'integer-matcher', 'text-transformer',
